@@ -39,7 +39,9 @@ type tgen struct{ r *fw.Rand }
 var c22BinOps = []token.Token{token.ADD, token.SUB, token.MUL, token.QUO, token.REM, token.AND, token.OR, token.XOR, token.SHL, token.SHR, token.AND_NOT, token.LAND, token.LOR, token.EQL, token.NEQ, token.LSS, token.LEQ, token.GTR, token.GEQ}
 var c22UnOps = []token.Token{token.ADD, token.SUB, token.NOT, token.XOR, token.AND, token.ARROW}
 
-func (g *tgen) id() *ast.Ident { return ast.NewIdent(fw.Pick(g.r, []string{"a", "b", "c", "x", "y", "f", "T", "p"})) }
+func (g *tgen) id() *ast.Ident {
+	return ast.NewIdent(fw.Pick(g.r, []string{"a", "b", "c", "x", "y", "f", "T", "p"}))
+}
 
 func (g *tgen) lit() ast.Expr {
 	switch g.r.Intn(5) {
@@ -101,7 +103,7 @@ func (g *tgen) expr(d int, xgo bool) ast.Expr {
 	case 10, 11:
 		ce := &ast.CallExpr{Fun: g.postfixX(d-1, xgo)}
 		if r.Chance(1, 6) {
-			ce.Fun = g.funcLit(d - 1, xgo)
+			ce.Fun = g.funcLit(d-1, xgo)
 		}
 		for k := r.Intn(3); k > 0; k-- {
 			if xgo && r.Chance(1, 5) {
